@@ -404,9 +404,10 @@ func (c *Config) validateLogging() error {
 	validLogFormats := map[string]bool{
 		"json":    true,
 		"console": true,
+		"text":    true,
 	}
 	if c.Logging.Format != "" && !validLogFormats[c.Logging.Format] {
-		return fmt.Errorf("invalid log format: %s (valid: json, console)", c.Logging.Format)
+		return fmt.Errorf("invalid log format: %s (valid: json, console, text)", c.Logging.Format)
 	}
 	return nil
 }
